@@ -20,7 +20,18 @@ Out of scope by the property statement (skipped): parameters on a box bound, the
 Parts:  A  fit criterion through create_lbfgs_arguments (exactly the GaussianProcessRegression.fit route),
         B  hand-written vjps of custom_op.cholesky_factorization / AddJitterOp,
         C  acquisition functions end to end on fitted GP predictors (+ small MCMC case) and on an analytic stub
-           predictor (plumbing of compute_acq_with_gradient: fantasy columns, MCMC lists, two outputs).
+           predictor (plumbing of compute_acq_with_gradient: fantasy columns, MCMC lists, two outputs).  The
+           two-output functions (EIpu, CEI) are run with the active metric listed FIRST and listed SECOND in the
+           predictor dict (GP, MCMC and stub predictors); besides the usual checks, value alone, value with gradient
+           and gradient of the two orders are compared with each other (round-off only).  An exception raised by
+           compute_acq / compute_acq_with_gradient at an interior point is a violation.
+        D  expected improvement in the lower tail: get_quantiles, EIAcquisitionFunction._compute_head (1 and 3
+           fantasy columns), _compute_head_and_gradient on a dense seed-shifted grid of u = (best - mean - jitter) /
+           std in [-12, 3] for several (std, best, jitter), and compute_acq / compute_acq_with_gradient on GP
+           posteriors with fixed hyperparameters along lines from the incumbent to the worst observations:
+           (i) minus-EI <= 0 at every point, (ii) EI == s (u Phi(u) + phi(u)) evaluated with mpmath (40 digits) from the
+           exact float inputs, relative tolerance max(1e-10, 7e-12 u^2) + conditioning of u (the unchanged erfc-based
+           code: max relative error 4.2e-12 at u = -12, 2.8e-13 for u >= -6, i.e. a safety factor >= 240).
 
 Bounded stand-in: run-time monitoring over an enumerated, seed-dependent catalogue. Never counted as proved.
 """
@@ -42,6 +53,9 @@ CL_JITTER = "addjitter-backward-is-the-derivative"
 CL_ACQ_VALUE = "acquisition-value-alone-equals-value-with-gradient"
 CL_EI_SIGN = "minus-expected-improvement-nonpositive"
 CL_STUB = "stub-plumbing-gradient-is-the-derivative"
+CL_ORDER = "two-output-acquisition-independent-of-predictor-dict-order"
+CL_TAIL_SIGN = "expected-improvement-never-negative[tail]"
+CL_TAIL_FORM = "expected-improvement-equals-closed-form[tail]"
 ACQ_NAMES = ("EI", "LCB", "EIpu", "CEI")
 
 
@@ -52,7 +66,7 @@ def _cl_acq(name):
 ALL_CLAUSES = (
     [CL_FIT_GRAD, CL_FIT_VALUE, CL_CHOL, CL_JITTER]
     + [_cl_acq(a) for a in ACQ_NAMES]
-    + [CL_ACQ_VALUE, CL_EI_SIGN, CL_STUB]
+    + [CL_ACQ_VALUE, CL_EI_SIGN, CL_STUB, CL_ORDER, CL_TAIL_SIGN, CL_TAIL_FORM]
 )
 
 
@@ -588,10 +602,20 @@ def _check_acq(ck, name, acq, xs, ident, clause=None, lower=0.0, upper=1.0):
             ck.skipped[clause] += x.size
             ck.skipped_cases.append((clause, "clamp", None, [], dict(ident), _lst(x)))
             continue
-        val, grad = acq.compute_acq_with_gradient(x.copy())
-        alone = float(np.asarray(acq.compute_acq(x.copy())).reshape(-1)[0])
         idx = dict(ident)
         idx["acquisition"] = name
+        try:
+            val, grad = acq.compute_acq_with_gradient(x.copy())
+            alone = float(np.asarray(acq.compute_acq(x.copy())).reshape(-1)[0])
+            grad = np.asarray(grad, dtype=float).reshape(-1)
+            if grad.shape != x.shape:
+                raise ValueError("gradient has shape %s, input has shape %s" % (grad.shape, x.shape))
+        except Exception as exc:  # a crash on an admissible interior point is a violation, not a monitor error
+            ck.count[CL_ACQ_VALUE] += 1
+            ck.count[clause] += 1
+            for cl in (CL_ACQ_VALUE, clause):
+                ck.violation(cl, problem="exception: %s: %s" % (type(exc).__name__, exc), input=_lst(x), **idx)
+            continue
         ck.check_equal_values(CL_ACQ_VALUE, float(val), alone, input=_lst(x), **idx)
         if name in ("EI", "EIpu", "CEI"):
             ck.count[CL_EI_SIGN] += 2
@@ -610,6 +634,51 @@ def _check_acq(ck, name, acq, xs, ident, clause=None, lower=0.0, upper=1.0):
             lower=np.full(x.shape, lower),
             upper=np.full(x.shape, upper),
         )
+
+
+def _check_order(ck, name, acq_first, acq_second, xs, ident):
+    """The same predictors, once with the active metric listed FIRST and once listed SECOND in the predictor dict:
+    value alone, value with gradient and gradient must not depend on the order of the dict (round-off only)."""
+    for x in xs:
+        x = np.array(x, dtype=float)
+        if _in_clamp_region(acq_first, name, x):
+            continue
+        idx = dict(ident)
+        idx["acquisition"] = name
+        ck.count[CL_ORDER] += 1
+        try:
+            res = []
+            for acq in (acq_first, acq_second):
+                alone = float(np.asarray(acq.compute_acq(x.copy())).reshape(-1)[0])
+                val, grad = acq.compute_acq_with_gradient(x.copy())
+                res.append((alone, float(val), np.asarray(grad, dtype=float).reshape(-1)))
+        except Exception as exc:
+            ck.violation(CL_ORDER, problem="exception: %s: %s" % (type(exc).__name__, exc), input=_lst(x), **idx)
+            continue
+        (a1, v1, g1), (a2, v2, g2) = res
+        vscale = max(abs(a1), abs(a2), abs(v1), abs(v2))
+        gscale = max(float(np.max(np.abs(g1))), float(np.max(np.abs(g2)))) if g1.shape == g2.shape and g1.size else float("nan")
+        ok = (
+            np.isfinite(vscale)
+            and np.isfinite(gscale)
+            and abs(a1 - a2) <= 1e-9 * vscale + 1e-14
+            and abs(v1 - v2) <= 1e-9 * vscale + 1e-14
+            and float(np.max(np.abs(g1 - g2))) <= 1e-9 * gscale + 1e-14
+        )
+        if vscale > 0:
+            ck.informative[CL_ORDER] += 1
+        if not ok:
+            ck.violation(
+                CL_ORDER,
+                value_alone_active_first=a1,
+                value_alone_active_second=a2,
+                value_with_gradient_active_first=v1,
+                value_with_gradient_active_second=v2,
+                gradient_active_first=_lst(g1),
+                gradient_active_second=_lst(g2),
+                input=_lst(x),
+                **idx
+            )
 
 
 def _part_c_gp(ck, tier, seed, info):
@@ -736,6 +805,19 @@ def _part_c_gp(ck, tier, seed, info):
                     "gp no-feasible-point " + tagf,
                 ),
             ]
+            # the same two-output functions with the ACTIVE metric listed SECOND in the predictor dict
+            eipu_second = EIpuAcquisitionFunction(
+                {COST: costm, INTERNAL_METRIC_NAME: active}, active_metric=INTERNAL_METRIC_NAME, exponent_cost=0.6
+            )
+            cei_second = CEIAcquisitionFunction(
+                {INTERNAL_CONSTRAINT_NAME: conm, INTERNAL_METRIC_NAME: active}, active_metric=INTERNAL_METRIC_NAME
+            )
+            assert list(eipu_second.predictor.keys())[1] == eipu_second.active_metric == INTERNAL_METRIC_NAME
+            assert list(cei_second.predictor.keys())[1] == cei_second.active_metric == INTERNAL_METRIC_NAME
+            order_pairs = [("EIpu", cases[3][1], eipu_second), ("CEI", cases[4][1], cei_second)]
+            assert cases[3][1].exponent_cost == 0.6 and cases[4][2].startswith("gp feasible-best-exists")
+            cases.append(("EIpu", eipu_second, "gp active-metric-listed-second exponent_cost=0.6 " + tagf))
+            cases.append(("CEI", cei_second, "gp active-metric-listed-second feasible-best-exists " + tagf))
             if with_pending:
                 # cost model which ignores pending evaluations (one mean column, broadcast against nf columns)
                 cost_nofant = build(COST, constr_mixed, with_pending, nf, no_fantasizing=True)
@@ -752,6 +834,8 @@ def _part_c_gp(ck, tier, seed, info):
             for name, acq, config in cases:
                 ck.case("acquisition[%s]" % name, config)
                 xs = points()
+                if "listed-second" in config:
+                    xs = xs[:2] + xs[-2:]
                 n_points += len(xs)
                 _check_acq(ck, name, acq, xs, {"component": "acquisition", "configuration": config})
                 if name == "LCB" and with_pending:
@@ -759,6 +843,12 @@ def _part_c_gp(ck, tier, seed, info):
                     ck.sample(
                         component="acquisition", acquisition=name, configuration=config, x=_lst(xs[0]), value=float(v), gradient=_lst(g)
                     )
+
+            for name, acq_first, acq_second in order_pairs:
+                xs = points()
+                xs = xs[:2] + xs[-1:]
+                ck.case("dict-order[%s]" % name, "gp " + tagf)
+                _check_order(ck, name, acq_first, acq_second, xs, {"component": "acquisition", "configuration": "gp dict order " + tagf})
 
         # ---- MCMC (cheap configurations: few slice-sampling steps), only for the first dimension setting.
         # With pending evaluations the library only works if every drawn sample is kept (n_burnin=0,
@@ -809,11 +899,36 @@ def _part_c_gp(ck, tier, seed, info):
                         ),
                     ),
                 ]
-                for name, acq in mcases:
-                    ck.case("acquisition[%s]" % name, tagm)
-                    xs = points()[: (4 if thorough else 3)]
+                mcases.append(
+                    (
+                        "EIpu",
+                        EIpuAcquisitionFunction(
+                            {COST: preds[COST], INTERNAL_METRIC_NAME: preds[INTERNAL_METRIC_NAME]},
+                            active_metric=INTERNAL_METRIC_NAME,
+                        ),
+                    )
+                )
+                mcases.append(
+                    (
+                        "CEI",
+                        CEIAcquisitionFunction(
+                            {
+                                INTERNAL_CONSTRAINT_NAME: preds[INTERNAL_CONSTRAINT_NAME],
+                                INTERNAL_METRIC_NAME: preds[INTERNAL_METRIC_NAME],
+                            },
+                            active_metric=INTERNAL_METRIC_NAME,
+                        ),
+                    )
+                )
+                for pos, (name, acq) in enumerate(mcases):
+                    second = pos >= 4
+                    cfg = tagm + (" active-metric-listed-second" if second else "")
+                    ck.case("acquisition[%s]" % name, cfg)
+                    xs = points()[: (2 if second else (4 if thorough else 3))]
                     n_points += len(xs)
-                    _check_acq(ck, name, acq, xs, {"component": "acquisition", "configuration": tagm})
+                    _check_acq(ck, name, acq, xs, {"component": "acquisition", "configuration": cfg})
+                for name, a1, a2 in (("EIpu", mcases[2][1], mcases[4][1]), ("CEI", mcases[3][1], mcases[5][1])):
+                    _check_order(ck, name, a1, a2, points()[:2], {"component": "acquisition", "configuration": "dict order " + tagm})
             mcmc_note = "MCMC: %s, %.1fs" % (", ".join(notes), time.time() - t0)
     info["C-gp"] = "C: %d fitted GP predictors, d in %s, fantasies {1, 3 with 2 pending}, %d input points; %s" % (
         n_models,
@@ -964,15 +1079,283 @@ def _part_c_stub(ck, tier, seed, info):
                 tag + " constraint: one fantasy without feasible point",
             ),
         ]
+        # active metric listed SECOND in the predictor dict (lists of different lengths, mean-only cost model)
+        second = [
+            (
+                "EIpu",
+                EIpuAcquisitionFunction({COST: cost_same, INTERNAL_METRIC_NAME: act}, active_metric=INTERNAL_METRIC_NAME, exponent_cost=0.7),
+                tag + " active-metric-listed-second cost: 2 samples, nf columns, mean only",
+                cases[3][1],
+            ),
+            (
+                "EIpu",
+                EIpuAcquisitionFunction({COST: cost_one, INTERNAL_METRIC_NAME: act}, active_metric=INTERNAL_METRIC_NAME),
+                tag + " active-metric-listed-second cost: deterministic single column",
+                cases[4][1],
+            ),
+            (
+                "CEI",
+                CEIAcquisitionFunction({INTERNAL_CONSTRAINT_NAME: con, INTERNAL_METRIC_NAME: act}, active_metric=INTERNAL_METRIC_NAME),
+                tag + " active-metric-listed-second constraint: 2 samples",
+                cases[5][1],
+            ),
+            (
+                "CEI",
+                CEIAcquisitionFunction({INTERNAL_CONSTRAINT_NAME: con_nan, INTERNAL_METRIC_NAME: act}, active_metric=INTERNAL_METRIC_NAME),
+                tag + " active-metric-listed-second constraint: one fantasy without feasible point",
+                cases[6][1],
+            ),
+        ]
+        for name, acq2, config, acq1 in second:
+            assert list(acq2.predictor.keys())[1] == acq2.active_metric and list(acq1.predictor.keys())[0] == acq1.active_metric
+            cases.append((name, acq2, config))
+            ck.case("dict-order[%s]" % name, config)
+            xs = [rs.uniform(0.1, 0.9, size=d) for _ in range(2)]
+            _check_order(ck, name, acq1, acq2, xs, {"component": "stub-predictor", "configuration": config})
         for name, acq, config in cases:
             n_cases += 1
             ck.case("stub[%s]" % name, config)
             xs = [rs.uniform(0.1, 0.9, size=d) for _ in range(n_pts)]
             _check_acq(ck, name, acq, xs, {"component": "stub-predictor", "configuration": config}, clause=CL_STUB)
-            if name == "CEI" and "without" in config:
+            if name == "CEI" and "without" in config and "listed-second" not in config:
                 v, g = acq.compute_acq_with_gradient(np.array(xs[0]))
                 ck.sample(component="stub-predictor", acquisition=name, configuration=config, x=_lst(xs[0]), value=float(v), gradient=_lst(g))
     info["C-stub"] = "stub predictor: %d acquisition/shape cases (MCMC lists of 1..3, fantasy columns 1..4)" % n_cases
+
+
+# ---------------------------------------------------------------------------------------------------------------
+# Part D: expected improvement in the lower tail (u = (best - mean - jitter) / std down to -12)
+# ---------------------------------------------------------------------------------------------------------------
+TAIL_U_MIN, TAIL_U_MAX = -12.0, 3.0
+
+
+def _ei_reference(best, mean, std, jitter):
+    """EI = s (u Phi(u) + phi(u)), u = (best - mean - jitter) / s, evaluated with 40 significant digits from the
+    exact values of the float64 inputs (no cancellation: Phi through erfc)"""
+    import mpmath as mp
+
+    with mp.workdps(40):
+        b, m, s, j = mp.mpf(float(best)), mp.mpf(float(mean)), mp.mpf(float(std)), mp.mpf(float(jitter))
+        u = (b - m - j) / s
+        Phi = mp.erfc(-u / mp.sqrt(2)) / 2
+        phi = mp.exp(-u * u / 2) / mp.sqrt(2 * mp.pi)
+        return s * (u * Phi + phi), u
+
+
+def _tail_rtol(u, best, mean, std, jitter):
+    """relative tolerance of the closed-form comparison.  Measured on the unchanged code (erfc based Phi), u in
+    [-12, 3], 5 (std, best, jitter) settings x 3001 points: max relative error 4.2e-12 at u = -12 (it grows like
+    u^2: cancellation u Phi + phi ~ phi / u^2), 2.8e-13 for u >= -6.  Tolerance = max(1e-10, 7e-12 u^2) (1e-9 at
+    u = -12: >= 240 x the measured error everywhere) + the conditioning of u itself (100 ulp of the difference
+    best - mean - jitter, amplified by |d log EI / du| <= max(1, |u|) + 1)."""
+    cond = 100.0 * 2.3e-16 * (abs(best) + abs(mean) + abs(jitter)) / std * (max(1.0, abs(u)) + 1.0)
+    return max(1e-10, 7e-12 * u * u) + cond
+
+
+class _TailStats:
+    def __init__(self):
+        self.worst_rel = 0.0
+        self.worst_ratio = 0.0
+        self.worst_at = None
+        self.n_deep = 0  # points with u < -6
+        self.u_lo, self.u_hi = np.inf, -np.inf
+
+
+def _tail_check(ck, st, minus_ei, best, mean, std, jitter, ident, sign_only=False):
+    """minus_ei: value returned by the library (minus EI, averaged over nothing); one scalar point"""
+    import mpmath as mp
+
+    v = float(minus_ei)
+    ref, u_mp = _ei_reference(best, mean, std, jitter)
+    u = float(u_mp)
+    ck.count[CL_TAIL_SIGN] += 1
+    if not (v <= 0.0):
+        ck.violation(
+            CL_TAIL_SIGN,
+            problem="expected improvement is negative (minus-EI value > 0)" if v == v else "value is NaN",
+            minus_ei=v,
+            closed_form_ei=float(ref),
+            u=u,
+            best=float(best),
+            mean=float(mean),
+            std=float(std),
+            jitter=float(jitter),
+            **ident
+        )
+    elif v < 0.0:
+        ck.informative[CL_TAIL_SIGN] += 1
+    if sign_only or not (TAIL_U_MIN - 1e-9 <= u <= TAIL_U_MAX + 1e-9):
+        return
+    ck.count[CL_TAIL_FORM] += 1
+    st.u_lo, st.u_hi = min(st.u_lo, u), max(st.u_hi, u)
+    if u < -6.0:
+        st.n_deep += 1
+        ck.informative[CL_TAIL_FORM] += 1
+    rel = float(abs((mp.mpf(-v) - ref) / ref)) if v == v else float("inf")
+    tol = _tail_rtol(u, float(best), float(mean), float(std), float(jitter))
+    if rel > st.worst_rel:
+        st.worst_rel = rel
+    if rel / tol > st.worst_ratio:
+        st.worst_ratio, st.worst_at = rel / tol, u
+    if rel / tol > ck.worst[CL_TAIL_FORM]:
+        ck.worst[CL_TAIL_FORM] = rel / tol
+    if not (rel <= tol):
+        ck.violation(
+            CL_TAIL_FORM,
+            problem="expected improvement differs from the closed form s (u Phi(u) + phi(u))",
+            ei=-v,
+            closed_form_ei=float(ref),
+            relative_error=rel,
+            relative_tolerance=tol,
+            u=u,
+            best=float(best),
+            mean=float(mean),
+            std=float(std),
+            jitter=float(jitter),
+            **ident
+        )
+
+
+def _part_d(ck, tier, seed, info):
+    from syne_tune.config_space import uniform
+    from syne_tune.optimizer.schedulers.searchers.utils.hp_ranges_factory import make_hyperparameter_ranges
+    from syne_tune.optimizer.schedulers.searchers.bayesopt.datatypes.common import INTERNAL_METRIC_NAME
+    from syne_tune.optimizer.schedulers.searchers.bayesopt.gpautograd.constants import OptimizationConfig
+    from syne_tune.optimizer.schedulers.searchers.bayesopt.models.gp_model import GaussProcEmpiricalBayesEstimator
+    from syne_tune.optimizer.schedulers.searchers.bayesopt.models import meanstd_acqfunc_impl as impl
+    from syne_tune.optimizer.schedulers.searchers.bayesopt.utils.test_objects import (
+        default_gpmodel,
+        create_tuning_job_state,
+    )
+
+    thorough = tier != "quick"
+    rs = np.random.RandomState(5000 + seed)
+    st = _TailStats()
+    n_grid = 2401 if thorough else 1201
+    Stub = _make_stub_class()
+    ei_stub = impl.EIAcquisitionFunction(Stub(rs, 1, 1, 1, INTERNAL_METRIC_NAME), jitter=0.01)
+    M = INTERNAL_METRIC_NAME
+
+    # ---- D1: get_quantiles and EIAcquisitionFunction._compute_head on a dense grid of u ------------------------
+    settings = [(1.0, 0.25, 0.01), (0.05, 0.25, 0.01), (3.7, -2.0, 0.0)]
+    settings.append((float(np.exp(rs.uniform(np.log(1e-3), np.log(30.0)))), float(rs.normal(0.0, 2.0)), 0.01))
+    if thorough:
+        settings.append((float(np.exp(rs.uniform(np.log(1e-3), np.log(30.0)))), float(rs.normal(0.0, 50.0)), float(rs.choice([0.0, 0.01, 0.1]))))
+    n_direct = 0
+    for std_val, best, jitter in settings:
+        step = (TAIL_U_MAX - TAIL_U_MIN) / (n_grid - 1)
+        ut = TAIL_U_MIN + step * (np.arange(n_grid - 1) + rs.uniform(0.0, 1.0))  # seed-dependent offset inside the range
+        ut = np.concatenate([ut, [TAIL_U_MIN, -8.0, -7.5, TAIL_U_MAX]]).reshape((-1, 1))
+        s = np.full_like(ut, std_val)
+        m = best - jitter - ut * s
+        cfg = "std=%.4g best=%.4g jitter=%g, %d grid points u in [%g, %g]" % (std_val, best, jitter, ut.size, TAIL_U_MIN, TAIL_U_MAX)
+        ck.case("ei-tail", "get_quantiles " + cfg)
+        phi, Phi, u = impl.get_quantiles(jitter, np.array([[best]]), m.copy(), s.copy())
+        ei_q = (s * (u * Phi + phi)).reshape(-1)
+        ei_stub.jitter = jitter
+        head = np.asarray(ei_stub._compute_head({M: {"mean": m.copy(), "std": s.copy()}}, np.array([[best]])), dtype=float).reshape(-1)
+        assert ei_q.shape == head.shape == (ut.size,)
+        for i in range(ut.size):
+            n_direct += 1
+            _tail_check(ck, st, -ei_q[i], best, m[i, 0], s[i, 0], jitter, {"component": "ei-tail", "entry": "get_quantiles: -s (u Phi + phi)", "configuration": cfg})
+            if head[i] != -ei_q[i]:
+                _tail_check(ck, st, head[i], best, m[i, 0], s[i, 0], jitter, {"component": "ei-tail", "entry": "EIAcquisitionFunction._compute_head", "configuration": cfg})
+            else:
+                ck.count[CL_TAIL_SIGN] += 1
+                ck.count[CL_TAIL_FORM] += 1
+        # value returned together with the head gradient, every 16th point
+        for i in range(0, ut.size, 16):
+            res = ei_stub._compute_head_and_gradient({M: {"mean": m[i].copy(), "std": s[i].copy()}}, np.array([best]))
+            _tail_check(ck, st, float(np.asarray(res.hval).reshape(-1)[0]), best, m[i, 0], s[i, 0], jitter, {"component": "ei-tail", "entry": "EIAcquisitionFunction._compute_head_and_gradient", "configuration": cfg})
+    # fantasy columns: head = mean over columns of the per-column minus-EI (columns in different parts of the tail)
+    nf = 3
+    ut = rs.uniform(TAIL_U_MIN, TAIL_U_MAX, size=(40, nf))
+    s = np.exp(rs.uniform(np.log(0.02), np.log(5.0), size=(40, 1)))
+    bests = rs.normal(0.0, 1.0, size=(1, nf))
+    m = bests - 0.01 - ut * s
+    ei_stub.jitter = 0.01
+    head = np.asarray(ei_stub._compute_head({M: {"mean": m.copy(), "std": s.copy()}}, bests.copy()), dtype=float).reshape(-1)
+    import mpmath as mp
+
+    ck.case("ei-tail", "_compute_head with %d fantasy columns" % nf)
+    for i in range(ut.shape[0]):
+        refs = [_ei_reference(bests[0, j], m[i, j], s[i, 0], 0.01) for j in range(nf)]
+        ref = sum(r for r, _ in refs) / nf
+        umin = min(float(uu) for _, uu in refs)
+        rel = float(abs((mp.mpf(-float(head[i])) - ref) / ref))
+        tol = max(_tail_rtol(float(uu), bests[0, j], m[i, j], s[i, 0], 0.01) for j, (_, uu) in enumerate(refs))
+        ck.count[CL_TAIL_SIGN] += 1
+        ck.count[CL_TAIL_FORM] += 1
+        ident = {"component": "ei-tail", "entry": "EIAcquisitionFunction._compute_head, %d fantasy columns" % nf, "u_columns": [float(uu) for _, uu in refs]}
+        if not (head[i] <= 0.0):
+            ck.violation(CL_TAIL_SIGN, problem="expected improvement is negative (minus-EI value > 0)", minus_ei=float(head[i]), closed_form_ei=float(ref), **ident)
+        if not (rel <= tol):
+            ck.violation(CL_TAIL_FORM, problem="head differs from the mean of the closed forms of the columns", ei=-float(head[i]), closed_form_ei=float(ref), relative_error=rel, relative_tolerance=tol, u=umin, **ident)
+
+    # ---- D2: end to end, EI on a GP posterior with fixed hyperparameters (no fitting), along lines from the
+    # incumbent to the worst observations: u runs from the body deep into the lower tail
+    opt_config = OptimizationConfig(lbfgs_tol=1e-6, lbfgs_maxiter=100, verbose=False, n_starts=2)
+    n_gp = 0
+    n_gp_deep = 0
+    for rep in range(2 if thorough else 1):
+        d, n = 2, 7
+        hp_ranges = make_hyperparameter_ranges({"x%d" % i: uniform(0.0, 1.0) for i in range(d)})
+        X = rs.uniform(0.08, 0.92, size=(n, d))
+        y = rs.uniform(0.0, 1.0, size=n)
+        state = create_tuning_job_state(
+            hp_ranges=hp_ranges,
+            cand_tuples=[tuple(float(v) for v in row) for row in X],
+            metrics=[{INTERNAL_METRIC_NAME: float(v)} for v in y],
+        )
+        gpmodel = default_gpmodel(state, random_seed=seed, optimization_config=opt_config)
+        est = GaussProcEmpiricalBayesEstimator(active_metric=INTERNAL_METRIC_NAME, gpmodel=gpmodel, num_fantasy_samples=1)
+        params = est.get_params()
+        params.update(
+            noise_variance=float(np.exp(rs.uniform(np.log(2e-3), np.log(2e-2)))),
+            kernel_inv_bw0=float(rs.uniform(2.0, 5.0)),
+            kernel_inv_bw1=float(rs.uniform(2.0, 5.0)),
+        )
+        est.set_params(params)
+        predictor = est.fit_from_state(state, update_params=False)
+        jitter = 0.01
+        acq = impl.EIAcquisitionFunction(predictor, jitter=jitter)
+        best = float(np.asarray(predictor.current_best()[0]).reshape(-1)[0])
+        order = np.argsort(y)
+        for target in (order[-1], order[-2]):
+            t = np.linspace(0.0, 1.0, 601 if thorough else 401).reshape((-1, 1))
+            inputs = np.clip((1.0 - t) * X[order[0]] + t * X[target] + 0.01, 0.03, 0.97)
+            pred = predictor.predict(inputs)[0]
+            mean = np.asarray(pred["mean"], dtype=float).reshape(-1)
+            std = np.asarray(pred["std"], dtype=float).reshape(-1)
+            vals = np.asarray(acq.compute_acq(inputs), dtype=float).reshape(-1)
+            cfg = "gp d=%d n=%d fixed hyperparameters, line incumbent -> observation %d, %d points" % (d, n, int(target), t.size)
+            ck.case("ei-tail", "compute_acq " + cfg)
+            for i in range(t.size):
+                if std[i] < 1e-8:
+                    continue
+                n_gp += 1
+                before = st.n_deep
+                _tail_check(ck, st, vals[i], best, mean[i], std[i], jitter, {"component": "ei-tail", "entry": "EIAcquisitionFunction.compute_acq", "configuration": cfg, "input": _lst(inputs[i])})
+                n_gp_deep += st.n_deep - before
+            for i in range(0, t.size, 20):
+                if std[i] < 1e-8:
+                    continue
+                v, _ = acq.compute_acq_with_gradient(inputs[i].copy())
+                _tail_check(ck, st, float(v), best, mean[i], std[i], jitter, {"component": "ei-tail", "entry": "EIAcquisitionFunction.compute_acq_with_gradient", "configuration": cfg, "input": _lst(inputs[i])})
+    if st.n_deep == 0 or not (st.u_lo <= TAIL_U_MIN + 0.01 and st.u_hi >= TAIL_U_MAX - 0.01):
+        raise RuntimeError("C09 monitor: EI tail scan does not cover u in [%g, %g]" % (TAIL_U_MIN, TAIL_U_MAX))
+    prev = info.get("D-stats")
+    if prev is not None:
+        st.worst_rel = max(st.worst_rel, prev.worst_rel)
+        if prev.worst_ratio > st.worst_ratio:
+            st.worst_ratio, st.worst_at = prev.worst_ratio, prev.worst_at
+    info["D-stats"] = st
+    info["D"] = (
+        "D: EI tail scan u in [%g, %g]: %d grid points through get_quantiles/_compute_head (%d settings of std/best/jitter), "
+        "%d GP points (%d with u < -6) through compute_acq; mpmath 40-digit closed form, rtol=max(1e-10, 7e-12 u^2)+conditioning; "
+        "worst relative error %.3g, worst error/tolerance %.3g at u=%.3f"
+        % (TAIL_U_MIN, TAIL_U_MAX, n_direct, len(settings), n_gp, n_gp_deep, st.worst_rel, st.worst_ratio, st.worst_at if st.worst_at is not None else float("nan"))
+    )
 
 
 # ---------------------------------------------------------------------------------------------------------------
@@ -984,14 +1367,14 @@ def monitor_gradients(tier="quick", seed=0):
     sub_seeds = [seed] if tier == "quick" else [seed, seed + 101, seed + 202]
     with _quiet():
         for sub in sub_seeds:
-            for key, part in (("A", _part_a), ("B", _part_b), ("C-gp", _part_c_gp), ("C-stub", _part_c_stub)):
+            for key, part in (("A", _part_a), ("B", _part_b), ("C-gp", _part_c_gp), ("C-stub", _part_c_stub), ("D", _part_d)):
                 t0 = time.time()
                 part(ck, tier, sub, info)
                 timing[key] = round(timing.get(key, 0.0) + time.time() - t0, 1)
     ck.finish()
     evaluations = int(sum(ck.count.values()))
     summary = (
-        "tier=%s seed=%d (%d catalogue(s), the bounds below are per catalogue); Richardson central differences h=%.0e*max(1,|x|), rtol=%.0e; %s; %s; %s; %s; "
+        "tier=%s seed=%d (%d catalogue(s), the bounds below are per catalogue); Richardson central differences h=%.0e*max(1,|x|), rtol=%.0e; %s; %s; %s; %s; %s; "
         "decided comparisons per clause=%s; skipped (finite difference not self-consistent)=%s; "
         "worst deviation/tolerance=%.3g; seconds=%s"
         % (
@@ -1004,6 +1387,7 @@ def monitor_gradients(tier="quick", seed=0):
             info["B"],
             info["C-gp"],
             info["C-stub"],
+            info["D"],
             {c: ck.count[c] for c in ALL_CLAUSES},
             {c: v for c, v in ck.skipped.items() if v},
             max(ck.worst.values()),
